@@ -240,6 +240,43 @@ pub fn do_op<K: KeyT, V: ValT>(m: &mut Map<K, V>, w: &[&str], chk: &mut Vec<Stri
             }
             None => Out::None,
         },
+        // lookups / removal through a borrowed form of the key (Equivalent<K>, a different type)
+        "getb" => match m.get(&KQ(n(1))) {
+            Some(v) => Out::Val(v.val()),
+            None => Out::None,
+        },
+        "getkvb" => match m.get_key_value(&KQ(n(1))) {
+            Some((k, v)) => Out::KV(k.stamp(), v.val()),
+            None => Out::None,
+        },
+        "containsb" => Out::Bool(m.contains_key(&KQ(n(1)))),
+        "getmutb" => match m.get_mut(&KQ(n(1))) {
+            Some(v) => {
+                let old = v.val();
+                v.set(n(2));
+                Out::Val(old)
+            }
+            None => Out::None,
+        },
+        "removeb" => match m.remove(&KQ(n(1))) {
+            Some(v) => {
+                let o = Out::Val(v.val());
+                held.push(Box::new(v));
+                o
+            }
+            None => Out::None,
+        },
+        // FromIterator: with_capacity(size_hint().0) + insert each; the old map is dropped afterwards
+        "fromiter" => {
+            let items: Vec<(K, V)> = w[1..].iter().map(|t| {
+                let p: Vec<u64> = t.split(':').map(parse_u64).collect();
+                (K::mk(p[0], p[1]), V::mk(p[2]))
+            }).collect();
+            let new: Map<K, V> = items.into_iter().collect();
+            let old = std::mem::replace(m, new);
+            drop(old);
+            Out::Unit
+        }
         "get" => match m.get(&K::mk(n(1), 999)) {
             Some(v) => Out::Val(v.val()),
             None => Out::None,
